@@ -586,6 +586,7 @@ func (w *treeWorld) step(f func()) {
 
 func runTreeScenario(t *testing.T, tr *tracer, idx int, seed uint64, mode string) {
 	synctest.Test(t, func(t *testing.T) {
+		reseed(seed, idx) // the library's own randomness (ticker fuzz) follows the scenario's seed
 		r := kv.NewRand(seed*1000003 + uint64(idx))
 		if mode == "" {
 			mode = "step,step,burst,burst,stall,overflow"
